@@ -61,6 +61,7 @@ func main() {
 	runSyncTie(f, res, drv)
 	runRacyTie(f, res, drv, tbl)
 	runOwnTie(f, res, drv)
+	runManyTie(f, res, drv)
 	drv.Close()
 	runRace(f, res, tbl)
 	if err := res.Write(f.Out); err != nil {
@@ -683,6 +684,18 @@ func replay(f lib.Flags) int {
 			return 1
 		}
 		fmt.Println("replay: mutual exclusion holds along the sequence")
+		return 0
+	case "many":
+		seq, ok := parseManyLine(fmt.Sprint(in["events"]))
+		if !ok {
+			fmt.Println("replay: malformed event list")
+			return 2
+		}
+		if d := manyIndependence(seq); d != "" {
+			fmt.Println("STILL FAILS C11/sync/instance-independence:", d)
+			return 1
+		}
+		fmt.Println("replay: every object accepts alone what it accepts in the interleaving")
 		return 0
 	}
 	b, _ := json.Marshal(in)
